@@ -39,6 +39,15 @@ var c13Scenarios = []string{"plain", "retry", "vn", "longchain", "resume", "0rtt
 	// the same large early write against a ticket that remembered a small stream flow control window
 	// (c13FCWindow): the early write is blocked on flow control when the rejection arrives
 	"0rtt-reject-fc",
+	// an early write that has left completely (c13CWPayload bytes, 4 packets) when the rejection
+	// arrives, against a server that comes back with a connection-level receive window
+	// (initial_max_data) just above that size (c13CWPayload + c13CWSlack): the request the
+	// application sends again after NextConnection is twice as large, so it needs the whole
+	// window of the new connection at once - none of it may still be charged with rejected bytes -
+	// and must wait for the server's MAX_DATA for the rest - the limit remembered with the
+	// ticket must be gone
+	"0rtt-reject-cw",
+	"0rtt-retry-reject-cw",
 }
 
 // scenario traits
@@ -54,6 +63,9 @@ func c13BigEarly(scen string) bool { // the early write is larger than what can 
 	return strings.HasSuffix(scen, "-big") || c13FCBlocked(scen)
 }
 func c13FCBlocked(scen string) bool { return strings.HasSuffix(scen, "-fc") }
+
+// c13CWTight: after the rejection the server grants a connection-level window just above the early data size
+func c13CWTight(scen string) bool { return strings.HasSuffix(scen, "-cw") }
 
 // c13KindsFor: the client kinds a scenario runs with.
 func c13KindsFor(si int) []string {
@@ -189,24 +201,43 @@ const c13Payload = "zero-rtt-payload-0123456789"
 const (
 	c13BigPayload = 100 << 10 // bytes of a large early write: > 10 packet pacing burst, > 32 packet initial congestion window, < the default 512 KiB stream window
 	c13FCWindow   = 8 << 10   // stream receive window remembered with the ticket in the -fc scenarios
+	c13CWPayload  = 4 << 10   // early write of the -cw scenarios: 4 packets, all on the wire before the server answers
+	c13CWSlack    = 64        // -cw: the server's new initial_max_data is c13CWPayload + c13CWSlack
 )
 
 // c13Payloads: what the client application writes on its first stream before the handshake
 // completes (early) and what it sends, on a stream of the connection returned by
 // NextConnection, after the early write was refused with Err0RTTRejected (resend). The two
 // differ from the first byte on, so that the server application can tell early data apart.
+func c13EarlySize(scen string) int {
+	switch {
+	case c13BigEarly(scen):
+		return c13BigPayload
+	case c13CWTight(scen):
+		return c13CWPayload
+	}
+	return len(c13Payload)
+}
+
 func c13Payloads(scen string) (early, resend []byte) {
 	early, resend = []byte(c13Payload), []byte("request-after-rejection-0123456789")
-	if c13BigEarly(scen) {
-		pad := func(b []byte) []byte {
-			out := make([]byte, c13BigPayload)
+	if size := c13EarlySize(scen); size > len(early) {
+		pad := func(b []byte, size int) []byte {
+			out := make([]byte, size)
 			n := copy(out, b)
 			for i := n; i < len(out); i++ {
 				out[i] = byte('a' + (i*7+i/251)%26)
 			}
 			return out
 		}
-		early, resend = pad(early), pad(resend)
+		early, resend = pad(early, size), pad(resend, size)
+		if c13CWTight(scen) {
+			// twice the early size = almost twice the server's new initial_max_data: the first
+			// window must go out on the transport parameters alone (nothing of the rejected attempt
+			// charged to it), the rest only after the server's MAX_DATA (a sender that kept the
+			// limit remembered with the ticket overruns the new one)
+			resend = pad(resend, 2*size)
+		}
 	}
 	return
 }
@@ -348,6 +379,10 @@ func c13Run(t *testing.T, cfg c13Config) c13Result {
 				// the server comes back with a different configuration: 0-RTT must be rejected
 				ln.Close()
 				sconf2 := &quic.Config{Allow0RTT: true, MaxIncomingStreams: 7}
+				if c13CWTight(scen) {
+					// the new connection-level window is just large enough for the request sent again
+					sconf2.InitialConnectionReceiveWindow = c13CWPayload + c13CWSlack
+				}
 				ln, err = w.ServerTr.Listen(stls, sconf2)
 				if err != nil {
 					t.Fatal(err)
@@ -915,7 +950,7 @@ func TestVerifC13(t *testing.T) {
 					}
 				}
 			}
-			return cfgs, fmt.Sprintf("%d scenarios (no Retry, Retry, version negotiation, long certificate chain, resumption, 0-RTT accepted, 0-RTT rejected, 0-RTT accepted after a Retry, 0-RTT rejected after a Retry, and with a 100 KiB early write - more than the pacing burst and the initial congestion window let out before the server answers - 0-RTT accepted, rejected, rejected after a Retry, and rejected while the write is blocked on an 8 KiB stream flow control window remembered with the ticket; in the 0-RTT scenarios the early stream data is written from the moment DialEarly returns, and after a rejection the application calls NextConnection and sends its request again on a newly opened stream) x client kinds x every fault map with 1 fault (12 fates, one of them a bit flip in the source connection ID) among the first 6 handshake datagrams of each direction (thorough: also 2 faults from {drop,dup,delay} among the first 5)", len(c13Scenarios))
+			return cfgs, fmt.Sprintf("%d scenarios (no Retry, Retry, version negotiation, long certificate chain, resumption, 0-RTT accepted, 0-RTT rejected, 0-RTT accepted after a Retry, 0-RTT rejected after a Retry, and with a 100 KiB early write - more than the pacing burst and the initial congestion window let out before the server answers - 0-RTT accepted, rejected, rejected after a Retry, and rejected while the write is blocked on an 8 KiB stream flow control window remembered with the ticket; with a 4 KiB early write that has left completely when the server answers: 0-RTT rejected, directly and after a Retry, by a server whose new connection-level receive window (initial_max_data) is 4 KiB + 64 bytes, and the request sent again is 8 KiB: it needs the whole window at once and a MAX_DATA for the rest; in the 0-RTT scenarios the early stream data is written from the moment DialEarly returns, and after a rejection the application calls NextConnection and sends its request again on a newly opened stream) x client kinds x every fault map with 1 fault (12 fates, one of them a bit flip in the source connection ID) among the first 6 handshake datagrams of each direction (thorough: also 2 faults from {drop,dup,delay} among the first 5)", len(c13Scenarios))
 		}),
 		mkPart("injections", func(e explore.Env) ([]c13Config, string) {
 			var cfgs []c13Config
